@@ -67,7 +67,7 @@ def script_of(steps):
         else:
             lines.append("ini\t" + st["ini"])
         if k >= 1:
-            lines.append("errno\t2")        # the previous exec failed with ENOENT and nobody cleared errno since (a fresh process starts with 0)
+            lines.append("errno\t%d" % st.get("errno", 2))   # the previous exec failed (ENOENT; EINTR: an interrupted call before) and nobody cleared errno since; a fresh process starts with 0
         lines.append(step_call_line(st))
         if st.get("unreadable"):
             unread.append(k)
@@ -119,7 +119,7 @@ def is_prod(variant):
 def run_history(run, libs, variant, steps, tag):
     script, fault = script_of(steps)
     premake_dirs(run, tag, steps)
-    r = run_life(run, lib_of(libs, variant), script, tag, fault=fault, timeout=180, prod=is_prod(variant))
+    r = run_life(run, lib_of(libs, variant), script, tag, fault=fault, timeout=25 if any(st.get("errno", 2) != 2 for st in steps) else 180, prod=is_prod(variant))
     return r, script, fault
 
 
@@ -172,14 +172,14 @@ def norm_step(st):
     """steps carry bytes in 'call'; make them JSON-able and back"""
     api, path, argv, envp = st["call"]
     conv = lambda x: x.hex() if isinstance(x, bytes) else x
-    return {"ini": st["ini"], "label": st.get("label", ""), "unreadable": bool(st.get("unreadable")), "dir": bool(st.get("dir")),
+    return {"ini": st["ini"], "label": st.get("label", ""), "unreadable": bool(st.get("unreadable")), "dir": bool(st.get("dir")), "errno": st.get("errno", 2),
             "call": [api, conv(path), [conv(a) for a in argv] if argv is not None else None, [conv(a) for a in envp] if envp is not None else None]}
 
 
 def denorm_step(st):
     api, path, argv, envp = st["call"]
     conv = lambda x: bytes.fromhex(x) if isinstance(x, str) else x
-    return {"ini": st["ini"], "label": st.get("label", ""), "unreadable": bool(st.get("unreadable")), "dir": bool(st.get("dir")),
+    return {"ini": st["ini"], "label": st.get("label", ""), "unreadable": bool(st.get("unreadable")), "dir": bool(st.get("dir")), "errno": st.get("errno", 2),
             "call": [api, conv(path), [conv(a) for a in argv] if argv is not None else None, [conv(a) for a in envp] if envp is not None else None]}
 
 
